@@ -225,3 +225,37 @@ def run(repo: Repo, rep: Report) -> None:
         missing = [p for p in ctx_params if passed.get(p) != p]
         rep.ob("C07.e-from-n3-forwards-context", um, "from_n3", c, not missing,
                "forwards %s" % ctx_params if not missing else "the datatype is resolved without the caller's %s: text written by n3(namespace_manager) is read back with another prefix table" % missing, node=c)
+
+    # ------------------------------------------------------------------ (f)
+    rep.rule("C07.f-sparql-absolute-iri-not-rebased",
+             "in the SPARQL prologue, an IRI is handed to base resolution (URIRef(iri, base=...), i.e. urllib's urljoin, which re-assembles and thereby "
+             "alters some absolute IRIs: an empty query or empty path parameters are dropped) only under a test that it has no scheme: the n3() text of "
+             "an IRI term is absolute and must be read back unchanged", floor=1)
+    sm = repo.mod("rdflib.plugins.sparql.sparql")
+    af = sm.func("Prologue.absolutize")
+    nf = 0
+    for c in own_nodes(af):
+        if not (isinstance(c, ast.Call) and norm(c.func) == "URIRef" and any(k.arg == "base" for k in c.keywords) and c.args):
+            continue
+        nf += 1
+        x = norm(c.args[0])
+        guarded = False
+        child = c
+        for p_ in sm.parents(c):
+            if isinstance(p_, ast.If) and child in p_.body:
+                for t in ast.walk(p_.test):
+                    if isinstance(t, ast.Compare) and len(t.ops) == 1 and isinstance(t.ops[0], (ast.In, ast.NotIn)) and norm(t.comparators[0]) == x \
+                            and isinstance(t.left, ast.Constant) and t.left.value in (":", "://"):
+                        # `":" not in x`, or `not ":" in x`
+                        neg = isinstance(t.ops[0], ast.NotIn) or isinstance(sm.parent.get(id(t)), ast.UnaryOp)
+                        guarded = guarded or neg
+                    if isinstance(t, ast.Attribute) and t.attr == "scheme" and x in norm(t):
+                        guarded = True
+            if p_ is af:
+                break
+            child = p_
+        rep.ob("C07.f-sparql-absolute-iri-not-rebased", sm, "Prologue.absolutize", c, guarded,
+               "only scheme-less references are resolved" if guarded else
+               "%s is resolved against BASE without a test that it is relative: with BASE <http://example/> the absolute IRI <http://example/a?> (the n3() text of that term) is read as <http://example/a>" % x, node=c)
+    if nf == 0:
+        rep.ob("C07.f-sparql-absolute-iri-not-rebased", sm, "Prologue.absolutize", "no base resolution through URIRef(base=)", True, "resolution not delegated to urljoin", node=af)
